@@ -214,8 +214,6 @@ def pair_lattice(tier, phase):
         out.append((t, bg, "branch_witness"))
     for t, bg in DIRECTION_WITNESS:
         out.append((t, bg, "direction_witness"))
-    if tier != "quick":
-        out += near_background_shell(phase)
     return out
 
 
